@@ -57,8 +57,10 @@ class FakeSock:
         self.pos += k
         return out
 
-    def recv_into(self, view):
-        k = self._take(len(view))
+    def recv_into(self, view, nbytes=0, flags=0):
+        # socket.recv_into contract: nbytes == 0 means "up to len(buffer)"
+        want = nbytes if nbytes else len(view)
+        k = self._take(want)
         if k:
             view[:k] = self.data[self.pos : self.pos + k]
         self.pos += k
